@@ -158,10 +158,18 @@ def renderServers (o : Option (List Bytes)) : String :=
 def sortBytes (l : List Bytes) : List Bytes :=
   (l.toArray.qsort (fun a b => compare a b == .lt)).toList
 
+/-- `Discovery.ServerList` as translated from the working tree (tie G), on the same entries, filter verdicts and draws -/
+def c18translated (entries : List Bytes) (filter : Option (Bytes → Bool)) (rs : List Nat) : List Bytes :=
+  let ext : Go.Ext := { parseFloat := fun _ => (0, none), randNew := ⟨rs.map fun (n : Nat) => (n : Int)⟩,
+                        strList := fun _ => entries, reMatchRaw := fun _ s => (filter.getD fun _ => true) s }
+  (Gen.Discovery.Discovery.ServerList ext { regex := ⟨[], filter.isSome⟩ }).2
+
 def c18res (entries : List Bytes) (filter : Option (Bytes → Bool)) (rs : List Nat) : Res :=
   let w := wanted entries filter
   let d := dedup [] w
-  { m := renderServers (serverList entries filter rs),
+  let mres := serverList entries filter rs
+  let gen := c18translated entries filter rs
+  { m := renderServers mres ++ (if mres.isSome ∧ mres != some gen then " translated=" ++ renderServers (some gen) else ""),
     s := renderServers (some (sortBytes d)),
     t := joinWith "," ((if d.length < w.length then ["dups"] else []) ++ (if d.length > 1 then ["multi"] else [])
         ++ (if filter.isSome then ["filter"] else []) ++ (if entries.length ≥ 100 then ["large"] else [])) }
